@@ -21,13 +21,15 @@ META = dict(
         '(body, error expression) with its count; (3) the From conversions INTO RunFailed/Failed/Fatal are exactly '
         '{Fatal,Failed}, and a From impl for SnapshotError/DeltaError/UpdateError builds the run-failing variant only from '
         'RunFailed/Failed; (4) the rsync collector cannot fail the run at all (no run-failing type in the signatures of '
-        'Run::load_module and below); (5) shared with C08 (same rule function): RejectedResources::keep_prefix tests a '
+        'Run::load_module and below); (5) closed guard set: the switches that decide whether RsyncCommand::update / RepositoryUpdate::try_update is reached '
+        'in rsync::Run::load_module / rrdp::Run::load_repository test only that repository\'s own state (already updated, '
+        'dubious authority, rsync configured); (6) shared with C08 (same rule function): RejectedResources::keep_prefix tests a '
         'prefix only against the rejected blocks of its own address family, so a rejected CA does not remove other-family '
         'VRPs of unrelated CAs under unsafe-vrps=reject.'),
     decides='which failures can end the run (and so affect CAs outside the faulty repository): only local I/O, payload-builder callbacks, and the listed explicit cases',
     undecided='equality of the payload of unaffected CAs; logic errors that turn a remote fault into a later LOCAL error (e.g. F18, decided under C25); resource exhaustion',
     trusted_base=['rustc MIR construction + callee resolution + residual type arguments of `?`'],
-    rules=['error-source allowlist (fail closed)', 'explicit Err table', 'From-conversion table', 'K3 rsync cannot fail the run', 'C08 family rule (shared)'],
+    rules=['K1 fetch decision depends on the repository alone (closed guard set)', 'error-source allowlist (fail closed)', 'explicit Err table', 'From-conversion table', 'K3 rsync cannot fail the run', 'C08 family rule (shared)'],
 )
 
 RUNFAIL = re.compile(r'\berror::(RunFailed|Failed|Fatal)\b')
@@ -285,7 +287,51 @@ def rule_rsync(ctx):
                   'collector::base::Run::repository propagates an error from %s' % srcs[:1], loc=s.loc())
 
 
+# What may decide whether the update of ONE repository is attempted: its own state only.
+FETCH_DECISIONS = {
+    'collector::rsync::Run::load_module': ('collector::rsync::RsyncCommand::update', [
+        (r'collector\.command|Option::as_ref\(.*command', 'rsync is configured at all'),
+        (r'HashSet::contains\(.*updated.*Module::from_uri|HashSet::contains\(.*updated', 'this module was already updated in this run'),
+        (r'filter_dubious', 'the dubious-host filter is on'),
+        (r'has_dubious_authority\((\*?)uri\)|UriExt::has_dubious_authority', 'this URI has a dubious authority'),
+    ]),
+    'collector::rrdp::base::Run::load_repository': ('collector::rrdp::base::RepositoryUpdate::try_update', [
+        (r'HashMap::get\(.*updated.*rpki_notify', 'this repository was already updated in this run'),
+        (r'filter_dubious', 'the dubious-host filter is on'),
+        (r'has_dubious_authority\(rpki_notify\)|UriExt::has_dubious_authority', 'this URI has a dubious authority'),
+        (r'RepositoryUpdate::new', 'local set-up of the update failed (`?`, run-failing, audited above)'),
+    ]),
+}
+
+
+def rule_fetch_decision_local(ctx):
+    """Whether a repository is fetched depends on that repository alone (no state left behind by other repositories)."""
+    for bn, (sink_pat, allowed) in FETCH_DECISIONS.items():
+        b = ctx.body(bn)
+        sinks = b.calls(sink_pat)
+        ctx.floor('K1', 'update call in %s' % bn.split('::')[-1], len(sinks), 1)
+        n = 0
+        for sk in sinks:
+            for sbb in b.switches():
+                if not b.can_reach(sbb, sk.bb):
+                    continue
+                o, edges = b.switch_edges(sbb)
+                tgts = list(edges)
+                reach = [tb for tb in tgts if tb == sk.bb or sk.bb in b.reachable(tb)]
+                if not reach or len(reach) == len(tgts):
+                    continue        # not a deciding switch
+                n += 1
+                d = describe(o) if o is not None else '?'
+                why = [w for rx, w in allowed if re.search(rx, d)]
+                ctx.check(bool(why), 'K1', 'fetch-decision:%s:%s' % (bn.split('::')[-1], re.sub(r'@bb\d+', '', d)[:70]),
+                          'the update is skipped/attempted depending on: %s' % (why[0] if why else d[:60]),
+                          '%s decides whether to fetch this repository on `%s`, which is not a property of this repository: a fault '
+                          'recorded for one repository (host, module ...) keeps other repositories from being fetched, so their CAs '
+                          'lose or keep stale data' % (bn, d[:140]), loc=Site(b, sbb).loc())
+        ctx.floor('K1', 'deciding switches in %s' % bn.split('::')[-1], n, 3)
+
+
 from props.C08 import rule_keep_prefix as rule_family  # noqa: E402  (shared: keep_prefix tests only the prefix's own family)
 
 
-RULES = [rule_sources, rule_explicit, rule_conversions, rule_rsync, rule_family]
+RULES = [rule_fetch_decision_local, rule_sources, rule_explicit, rule_conversions, rule_rsync, rule_family]
